@@ -638,7 +638,8 @@ EndViol(ev) ==
            clean => {i \in (Expected \ Launched) \cap NeverReached : i[1] \notin W.seqtasks} = {})
   \* with a stop task the scheduler stops once that task has succeeded
   \cup Chk("C43_StopTaskStops",
-           (env.cmdStopTask[1] # "none" /\ <<env.cmdStopTask[1], env.cmdStopTask[2], "succeeded">> \in done
+           \* (a task that had already succeeded when it was named as stop task does not count)
+           (env.cmdStopTask[1] # "none" /\ <<env.cmdStopTask[1], env.cmdStopTask[2], "succeeded">> \in done \ env.doneAtStopTask
             /\ env.downkind # "crash") => ev.reason = "AUTOMATIC")
   \cup Chk("C01_ShutsDown", completable => ev.reason = "AUTOMATIC")
   \cup Chk("C04_NoRunaheadDeadlock", completable => ev.reason = "AUTOMATIC")
@@ -681,7 +682,7 @@ EndViol(ev) ==
 EndCov(ev) == Cov("C10_FinalMatchesJob", env.succeeded # {} /\ ev.reason \in {"AUTOMATIC", "stalled", "quiescent"})
               \cup Cov("C10_FinalMatchesJobUnderFaults", Opt.faults /\ env.succeeded # {})
               \cup Cov("C43_ShutdownWhenNothingLeft", env.stop # NoPoint /\ Opt.allcomplete /\ ~Opt.stopreq)
-              \cup Cov("C43_StopTaskStops", env.cmdStopTask[1] # "none" /\ <<env.cmdStopTask[1], env.cmdStopTask[2], "succeeded">> \in done)
+              \cup Cov("C43_StopTaskStops", env.cmdStopTask[1] # "none" /\ <<env.cmdStopTask[1], env.cmdStopTask[2], "succeeded">> \in done \ env.doneAtStopTask)
               \cup Cov("C19_SameOutcome", Opt.hastwin /\ env.downkind = "stop")
               \cup Cov("C20_NoLoss", Opt.hastwin /\ env.downkind = "crash")
               \cup Cov("C01_ExactClosure", ~Opt.manual /\ ~env.incomplete /\ ev.reason = "AUTOMATIC")
@@ -759,6 +760,8 @@ NextEnv(ev) ==
                             ELSE [@ EXCEPT !.ok = FALSE],
                      !.cmdStopTask = IF ev.name = "stop" /\ ev.stoptask[1] # "none" /\ ev.stoptask[1] \in W.tasks
                                      THEN ev.stoptask ELSE @,
+                     !.doneAtStopTask = IF ev.name = "stop" /\ ev.stoptask[1] # "none" /\ ev.stoptask[1] \in W.tasks
+                                        THEN done ELSE @,
                      !.cmdDone0 = done,
                      !.cmdpre = pool, !.cmdname = ev.name, !.cmdids = ev.ids, !.cmdflow = ev.flow, !.forcedSince = {},
                      !.trig = IF ev.name = "force_trigger_tasks"
@@ -836,7 +839,7 @@ Violations(ev) ==
                             \* workflow has nothing left to do anyway)
                             \cup Chk("C43_StopTaskNotEarly",
                                      (ev.mode = "AUTO" /\ env.hadStopTask /\ env.cmdStopTask[1] # "none") =>
-                                        (<<env.cmdStopTask[1], env.cmdStopTask[2], "succeeded">> \in done
+                                        (<<env.cmdStopTask[1], env.cmdStopTask[2], "succeeded">> \in done \ env.doneAtStopTask
                                          \/ SetStopQuiescent(ev)))
     [] ev.e = "stall" -> Chk("C03_StallIsReal", StallViol(ev))
                          \* a runahead-limited task that lies within the limit of the present pool is about to be
@@ -893,7 +896,7 @@ Init == /\ tid \in DOMAIN Runs
         /\ hist = <<>>
         /\ env = [stop |-> NoPoint, tohold |-> {}, holdpt |-> NoPoint, restarted |-> FALSE, incomplete |-> FALSE,
                   prestop |-> <<>>, prescal |-> <<>>, downkind |-> "none", committed |-> {}, poolcommitted |-> FALSE, lostAtCrash |-> {}, earlyCrash |-> FALSE, hadStopTask |-> FALSE, hadDup |-> FALSE, committedAtCrash |-> {}, jobsSinceBoot |-> {}, spawnedSinceBoot |-> {}, jobs |-> {}, succeeded |-> {}, failedjobs |-> {}, tainted |-> {}, seenMsgs |-> {}, xtActive |-> {}, xtLast |-> <<>>, xtOK |-> {}, xtOKold |-> {}, xtEverOK |-> {}, xtLastOK |-> {}, xtNeeders |-> <<>>, flowsEver |-> {},
-                  trig |-> [ids |-> {}, done |-> {}, n |-> <<>>, dflt |-> FALSE, live |-> {}, stale |-> {}, ran |-> {}], clock |-> 0, dueprev |-> {}, cmdStop |-> NoPoint, rm |-> [active |-> FALSE, ok |-> FALSE, ids |-> {}, flow |-> {}], activeAtCleanReq |-> {}, stop0 |-> -999, cmdStopTask |-> <<"none", -999>>, cmdDone0 |-> {}, cmdpre |-> <<>>, cmdname |-> "none", cmdids |-> {},
+                  trig |-> [ids |-> {}, done |-> {}, n |-> <<>>, dflt |-> FALSE, live |-> {}, stale |-> {}, ran |-> {}], clock |-> 0, dueprev |-> {}, cmdStop |-> NoPoint, rm |-> [active |-> FALSE, ok |-> FALSE, ids |-> {}, flow |-> {}], activeAtCleanReq |-> {}, stop0 |-> -999, doneAtStopTask |-> {}, cmdStopTask |-> <<"none", -999>>, cmdDone0 |-> {}, cmdpre |-> <<>>, cmdname |-> "none", cmdids |-> {},
                   cmdflow |-> {}, forcedSince |-> {}, completedIn |-> {}, flowctr |-> 0]
         /\ viol = {}
         /\ cov = {}
